@@ -347,7 +347,7 @@ func init() {
 	fw.Register(&fw.Property{
 		ID:          "C12",
 		Level:       "exploration",
-		Rule:        "generated repositories: commit DAGs (several roots) whose tables share blocks, also across two different keys (more block indices than blocks); refs of every kind (heads, tags, remotes, txs of a transaction that is open) on a random subset of commits, the rest unreferenced; 0..3 commits made shallow by removing their table objects; optional orphan table; some repositories of several hundred keys on the real badger store; prune.Prune on the in-memory store, `wrgl prune` / `wrgl gc` on badger+sqlite; key sets and bytes before/after compared against graph-model reachability: commits = reachable set exactly, every object of a reachable commit byte-identical, tables/blocks referenced only by removed commits gone, every reachable full commit read back row by row through the structural monitor, no panic, second prune changes nothing; distinct_nontrivial = distinct (entry, shallow, size, removed count, seed)",
+		Rule:        "generated repositories: commit DAGs (several roots) whose tables share blocks, also across two different keys (more block indices than blocks); refs of every kind (heads, tags, remotes, txs of a transaction that is open, txs of one that expired 45 days ago - discarded by gc, untouched by prune) on a random subset of commits, the rest unreferenced; 0..3 commits made shallow by removing their table objects; optional orphan table; some repositories of several hundred keys on the real badger store; prune.Prune on the in-memory store, `wrgl prune` / `wrgl gc` on badger+sqlite; key sets and bytes before/after compared against graph-model reachability: commits = reachable set exactly, every object of a reachable commit byte-identical, tables/blocks referenced only by removed commits gone, every reachable full commit read back row by row through the structural monitor, no panic, second prune changes nothing; distinct_nontrivial = distinct (entry, shallow, size, removed count, seed)",
 		Assumptions: []string{"objects referenced by nothing at all (orphans that never belonged to a commit) may or may not be removed"},
 		Gen: func(tier string, seed int64) []fw.Case {
 			l := fw.NewCaseList("C12", tier, seed)
